@@ -129,15 +129,24 @@ def witness_attrpath_creation(prog, fn: ast.AST) -> bool:
                 b = n.value.args[0].id
                 owner, body = body_containing(fn, n)
                 i = body.index(n)
-                if i < 2:
+                if i < 1:
                     return False
-                mk_set, mk_b = body[i - 2], body[i - 1]
-                if not (isinstance(mk_set, ast.Assign) and isinstance(mk_set.targets[0], ast.Name) and _fresh_empty_set_ctor(mk_set.value)):
+                mk_b = body[i - 1]
+                if not (isinstance(mk_b, ast.Assign) and norm(mk_b.targets[0]) == b and isinstance(mk_b.value, ast.Call) and callee(mk_b.value) == "Binding"):
                     return False
-                s_ = mk_set.targets[0].id
-                ok_b = isinstance(mk_b, ast.Assign) and norm(mk_b.targets[0]) == b and isinstance(mk_b.value, ast.Call) \
-                    and callee(mk_b.value) == "Binding" and {(k.arg, norm(k.value)) for k in mk_b.value.keywords} >= {("value", s_), ("nested", "True")}
-                if not ok_b:
+                kws = {k.arg: k.value for k in mk_b.value.keywords}
+                if norm(kws.get("nested", ast.Constant(value=None))) != "True" or "value" not in kws:
+                    return False
+                v = kws["value"]
+                if isinstance(v, ast.Name):
+                    # the fresh set was bound to a local just before
+                    if i < 2:
+                        return False
+                    mk_set = body[i - 2]
+                    if not (isinstance(mk_set, ast.Assign) and isinstance(mk_set.targets[0], ast.Name) and mk_set.targets[0].id == v.id
+                            and _fresh_empty_set_ctor(mk_set.value)):
+                        return False
+                elif not _fresh_empty_set_ctor(v):
                     return False
                 cur = norm(n.value.func.value)[:-len(".values")]
                 return bool(lp.body) and norm(lp.body[-1]) == f"{cur} = {b}.value"
